@@ -10,7 +10,8 @@ SPEC = {
     'rule': ('texts from five hostile generators (lexeme soup over the whole lexicon, mutated repository test lines, '
              'extreme instances of the other properties\' phrases, case-length-changing / multi-byte Unicode, 1-40 line '
              'assemblies with LF/CRLF and sentinel lines) x language tags (en, tr, unknown) x separator / digit / zone '
-             'configurations reachable through the setters x virtual dates, through execute and through a re-used Session; '
+             'configurations reachable through the setters x virtual dates, through execute and through a re-used Session; thorough tier: '
+             'one shard runs a coverage-guided libFuzzer target (workload generator only: its artifacts and corpus are re-judged through the driver); '
              'a case is non-trivial when the text contains at least one non-blank line; distinct = distinct '
              '(configuration, language, text)'),
     'min_nontrivial': 500,
@@ -97,7 +98,127 @@ def isolate(drv, cfg_ops, lang, text, sig):
     return text
 
 
+FUZZ_LANGS = ['en', 'tr', 'xx', 'en']
+FUZZ_CFGS = [
+    {'dec': ',', 'thou': '.', 'digits': 2, 'rm': True, 'round': True, 'tz': 'UTC'},
+    {'dec': '.', 'thou': ',', 'digits': 2, 'rm': True, 'round': True, 'tz': 'UTC'},
+    {'dec': '.', 'thou': '', 'digits': 2, 'rm': True, 'round': True, 'tz': 'GMT+5:30'},
+    {'dec': ',', 'thou': '.', 'digits': 9, 'rm': False, 'round': False, 'tz': 'EST'},
+]
+
+
+def fuzz_lens(ctx):
+    """Lens 6 (thorough tier, one shard): a libFuzzer target built from /repo's working tree (cargo +nightly fuzz, no sanitizer,
+    coverage feedback only) runs in fork mode for most of the budget; libFuzzer is only a *workload generator*: every artifact
+    it leaves (crash, timeout, oom) and a sample of its final corpus are re-run through scdriver and judged by the same monitor.
+    A missing toolchain / failed build is reported as a skipped lens, never as a verdict."""
+    import glob
+    import os
+    import shutil
+    import subprocess
+    import time
+    from . import core
+    res = ctx.res
+    rng = ctx.rng
+    fdir = os.path.join(core.DRIVER_DIR, 'fuzz')
+    work = os.path.join(core.WORK_DIR, 'fuzz-seed%d' % ctx.seed)
+    shutil.rmtree(work, ignore_errors=True)
+    os.makedirs(os.path.join(work, 'corpus'))
+    os.makedirs(os.path.join(work, 'artifacts'))
+    env = dict(os.environ)
+    env['CARGO_NET_OFFLINE'] = 'true'
+    env.pop('LD_PRELOAD', None)
+    lock_src, lock_dst = os.path.join(core.REPO, 'Cargo.lock'), os.path.join(fdir, 'Cargo.lock')
+    try:
+        if os.path.exists(lock_src) and not os.path.exists(lock_dst):
+            shutil.copy(lock_src, lock_dst)
+        with open(os.path.join(core.WORK_DIR, 'fuzz-build.lock'), 'w') as lk:
+            import fcntl
+            fcntl.flock(lk, fcntl.LOCK_EX)
+            b = subprocess.run(['cargo', '+nightly', 'fuzz', 'build', '-s', 'none', 'exec'], cwd=core.DRIVER_DIR, env=env,
+                               stdout=subprocess.PIPE, stderr=subprocess.STDOUT, text=True, timeout=1500)
+    except Exception as e:           # toolchain missing, timeout
+        res.notes.append('libFuzzer lens skipped: %s' % (str(e)[:300],))
+        res.count('fuzz_lens_skipped')
+        return
+    binary = os.path.join(fdir, 'target', 'x86_64-unknown-linux-gnu', 'release', 'exec')
+    if b.returncode != 0 or not os.path.exists(binary):
+        res.notes.append('libFuzzer lens skipped: the fuzz target did not build: %s' % (b.stdout[-400:].replace('\n', ' | '),))
+        res.count('fuzz_lens_skipped')
+        return
+    # seed corpus from the hostile generators, dictionary from the lexicon
+    for k in range(400):
+        text = gh.hostile_line(rng, long_tail=False) if k % 4 else gh.hostile_text(rng, with_sentinels=False)[0]
+        sel = rng.randrange(16)
+        with open(os.path.join(work, 'corpus', 'seed%03d' % k), 'wb') as f:
+            f.write(bytes([sel]) + text.encode('utf-8', 'replace')[:600])
+    with open(os.path.join(work, 'dict.txt'), 'w', encoding='utf-8') as f:
+        for w in sorted(set(gh.lexemes()))[:4000]:
+            b_ = w.encode('utf-8')
+            if 0 < len(b_) <= 24:
+                f.write('"%s"\n' % ''.join('\\x%02x' % c for c in b_))
+    total = max(30, int(ctx.deadline - time.time()) - 100)
+    cmd = [binary, '-fork=4', '-ignore_crashes=1', '-ignore_timeouts=1', '-ignore_ooms=1', '-max_total_time=%d' % total, '-timeout=10', '-max_len=600',
+           '-rss_limit_mb=4096', '-seed=%d' % (ctx.seed + 1), '-dict=' + os.path.join(work, 'dict.txt'),
+           '-artifact_prefix=' + os.path.join(work, 'artifacts') + '/', os.path.join(work, 'corpus')]
+    try:
+        fz = subprocess.run(cmd, cwd=work, env=env, stdout=subprocess.PIPE, stderr=subprocess.STDOUT, text=True, errors='replace', timeout=total + 300)
+        tail = [l for l in fz.stdout.splitlines() if l.startswith('#')][-1:] or ['']
+    except subprocess.TimeoutExpired:
+        tail = ['(libFuzzer did not stop in time; its corpus is used as it is)']
+    res.notes.append('libFuzzer lens: %d s, last status line: %s' % (total, tail[0][:200]))
+    m = re.search(r'#(\d+): cov: (\d+) ft: (\d+) corp: (\d+)', tail[0])
+    if m:
+        res.counters['fuzz_executions'] = int(m.group(1))
+        res.counters['fuzz_coverage_counters'] = int(m.group(2))
+        res.counters['fuzz_corpus_size'] = int(m.group(4))
+    arts = sorted(glob.glob(os.path.join(work, 'artifacts', '*')))
+    corp = sorted(glob.glob(os.path.join(work, 'corpus', '*')))
+    rng.shuffle(corp)
+    res.counters['fuzz_artifacts'] = len(arts)
+    clock_name, epoch, tz = ctx.env_for_shard()
+    drv = ctx.driver(epoch, tz, rw=True)
+    todo = [(pth, True) for pth in arts[:3000]] + [(pth, False) for pth in corp[:6000]]
+    for start in range(0, len(todo), 300):
+        chunk = todo[start:start + 300]
+        by_cfg = {}
+        for pth, is_art in chunk:
+            try:
+                data = open(pth, 'rb').read()
+            except OSError:
+                continue
+            if not data:
+                continue
+            sel = data[0]
+            text = data[1:].decode('utf-8', 'replace')
+            by_cfg.setdefault((sel >> 2) & 3, []).append((FUZZ_LANGS[sel & 3], text, is_art, os.path.basename(pth)))
+        for ci, items in by_cfg.items():
+            cfg = FUZZ_CFGS[ci]
+            cops = gh.config_ops(cfg)
+            rs = drv.run(cops + [{'op': 'execute', 'lang': lang, 'text': text} for lang, text, _, _ in items])[len(cops):]
+            for (lang, text, is_art, name), r in zip(items, rs):
+                res.cases += 1
+                res.count('texts_from_libfuzzer_artifacts' if is_art else 'texts_from_libfuzzer_corpus')
+                if text.strip():
+                    res.distinct.add('fuzz', ci, lang, text)
+                nslots = len(re.split(r'\r\n|\n', text))
+                problems = judge(r, text, nslots, {}, False)
+                if not problems:
+                    res.count('texts_ok')
+                    if is_art:
+                        res.count('fuzz_artifacts_not_reproduced_by_the_driver')
+                    continue
+                for sig, what in problems:
+                    res.count('outcome:' + sig.split('@')[0].split(':')[0])
+                    res.violation(sig, what + ' (input found by libFuzzer: %s)' % name,
+                                  {'config': cfg, 'lang': lang, 'text': text, 'clock': clock_name, 'epoch': epoch, 'tz': tz, 'via': 'libfuzzer',
+                                   'ops': cops + [{'op': 'execute', 'lang': lang, 'text': text}]})
+    shutil.rmtree(work, ignore_errors=True)
+
+
 def run_shard(ctx):
+    if ctx.thorough() and ctx.shard == ctx.nshards - 1 and ctx.nshards > 1 and not ctx.params.get('no_fuzz'):
+        return fuzz_lens(ctx)
     rng = ctx.rng
     res = ctx.res
     clock_name, epoch, tz = ctx.env_for_shard()
